@@ -218,15 +218,39 @@ def closure_fn(prog, pattern=None):
     return cands[0][2] if cands else None
 
 
+def _succs(blk):
+    """successor blocks of the terminator of a (non-cleanup) block: goto, drop / call / assert return targets, switch targets"""
+    out = []
+    for stt in blk:
+        k = stt[0]
+        if k == 'goto': out.append(stt[1])
+        elif k == 'drop': out.append(stt[2])
+        elif k == 'assert': out.append(stt[4])
+        elif k == 'call' and stt[4] is not None: out.append(stt[4])
+        elif k == 'switch':
+            out.extend(t for _, t in stt[2])
+            if stt[3] is not None: out.append(stt[3])
+    return [t for t in out if isinstance(t, int)]
+
+
 def find_loop_head(fn):
-    """target of the back edge: the lowest-numbered block that is the target of a goto from a higher-numbered block"""
-    best = None
-    for b, blk in fn.blocks.items():
-        if b in fn.cleanup: continue
-        for stt in blk:
-            if stt[0] == 'goto' and stt[1] <= b:
-                if best is None or stt[1] < best: best = stt[1]
-    return best
+    """header of the outermost loop: the target, discovered first in a depth-first walk from bb0, of a back edge (an edge to a
+    block on the current DFS stack).  Every kind of terminator edge counts -- the back edge of a `loop {}` is a `goto` in some
+    shapes and the return edge of the guard's `drop` in others (match-based bodies)."""
+    order = {}; on_stack = set(); heads = []
+    stack = [(0, iter(_succs(fn.blocks.get(0, []))))]; order[0] = 0; on_stack.add(0)
+    while stack:
+        b, it = stack[-1]
+        nxt = next(it, None)
+        if nxt is None:
+            stack.pop(); on_stack.discard(b); continue
+        if nxt in fn.cleanup or nxt not in fn.blocks: continue
+        if nxt in on_stack: heads.append(nxt); continue
+        if nxt in order: continue
+        order[nxt] = len(order); on_stack.add(nxt)
+        stack.append((nxt, iter(_succs(fn.blocks[nxt]))))
+    if not heads: return None
+    return min(heads, key=lambda h: order[h])
 
 
 def extract_worker(prog):
